@@ -466,17 +466,18 @@ theorem truncated_paths_none :
       decide (parse_facebook_url ("/" ++ p).toList true = .ok none)) = true := by
   decide +kernel
 
-/-- **round trip of what the parser returns, proved part**: for every string and both values
-of `allow_relative_urls`, if `parse_facebook_url` returns a record `r` with `charsOk r` — no field
-that goes to the path of the canonical url contains `;` or is `.` / `..`, no field that goes to its
-query contains `& # + %` TAB CR LF — then `.url` returns a url and parsing that url gives the same
-record.  The excluded records are exactly those with a character that the builders do not escape
-and that `urljoin` / `urlsplit` / `parse_qs` read as syntax: each exclusion really fails
-(`excluded_shapes_fail`).  Nothing else is assumed: that the fields are not empty
-(`parsed_fields_nonempty`), that the path-borne ones have no white space at their ends, no `/ ? #`
-and no TAB CR LF (`parsed_path_fields_clean`), and that no earlier route of the parser takes the
-canonical url are *derived* from the fact that the parser returned the record.  White space
-inside a field, or at the ends of a query-borne one, is inside the proved part. -/
+/-- **round trip of what the parser returns, the "if" half of `reparse_iff`**: for every string and
+both values of `allow_relative_urls`, if `parse_facebook_url` returns a record `r` with `charsOk r` —
+no field that goes to the path of the canonical url is `.` / `..`, the one that ends that path has
+no `.` / `..` in front of its first `;` and does not have its first `;` as last character; no field
+that goes to its query contains `& # +` TAB CR LF or a percent escape `%XX` — then `.url` returns a
+url and parsing that url gives the same record.  `charsOk` is exact: a returned record that does not
+satisfy it does not round-trip (`reparse_iff`).  Nothing else is assumed: that the fields are not
+empty (`parsed_fields_nonempty`), that the path-borne ones have no white space at their ends, no
+`/ ? #` and no TAB CR LF (`parsed_path_fields_clean`), and that no earlier route of the parser takes
+the canonical url are *derived* from the fact that the parser returned the record.  White space
+inside a field, or at the ends of a query-borne one, a `;` anywhere but at the end of the last
+path-borne field (`g;/posts/5`, `a;b`), a bare `%` (`a%zz`) are inside. -/
 theorem reparse_of_parse_partial (url : Str) (rel : Bool) (r : Parsed)
     (h : parse_facebook_url url rel = .ok (some r)) (hc : charsOk r = true) : Reparses r := by
   have hr : reparsable r = true := by
@@ -640,6 +641,23 @@ theorem fixed_findings_behave :
     charsOk (.handle "nasa".toList) = true ∧ charsOk (.photo "1".toList none none none none) = true ∧
     charsOk (.photo "5".toList none none (some "nasa".toList) (some "media.123".toList)) = true ∧
     convert_facebook_url_to_mobile "HTTP://FACEBOOK.COM/nasa".toList = .ok "http://m.facebook.COM/nasa".toList := by
+  decide +kernel
+
+/-- what the first versions of `charsOk` excluded for the proof only and is now inside: a `;` in a
+field that does not end the canonical path, or followed by something, or in an album id; a `%` that
+starts no escape -/
+theorem semicolon_percent_inside :
+    parse_facebook_url "https://www.facebook.com/g;/posts/5".toList false
+      = .ok (some (.post "5".toList none (some "g;".toList) none none)) ∧
+    charsOk (.post "5".toList none (some "g;".toList) none none) = true ∧
+    parse_facebook_url "https://www.facebook.com/a;b".toList false = .ok (some (.handle "a;b".toList)) ∧
+    charsOk (.handle "a;b".toList) = true ∧ charsOk (.handle "a;;".toList) = true ∧ charsOk (.handle ";a".toList) = true ∧
+    parse_facebook_url "https://www.facebook.com/x/photos/a.1;/5".toList false
+      = .ok (some (.photo "5".toList none none (some "x".toList) (some "1;".toList))) ∧
+    charsOk (.photo "5".toList none none (some "x".toList) (some "1;".toList)) = true ∧
+    parse_facebook_url "https://www.facebook.com/watch?v=a%25zz".toList false = .ok (some (.video "a%zz".toList none)) ∧
+    charsOk (.video "a%zz".toList none) = true ∧ charsOk (.video "%".toList none) = true ∧
+    charsOk (.handle "..;x".toList) = false ∧ charsOk (.post ".;".toList none (some "x".toList) none none) = false := by
   decide +kernel
 
 /-- an album id may start with white space (it is the tail of the segment `a.<album>`); such a
